@@ -3,6 +3,7 @@ C03 - property theorems: assignment writes exactly the addressed cells.
 -/
 import DimModel.Lib.GetSet
 import DimModel.Gen.TableC03
+import DimModel.Proofs.C03Put
 namespace DimModel
 open Lib
 
@@ -181,5 +182,672 @@ theorem maybeCast_table_covers_numeric_object :
 /-- non-vacuity: a selection with a repeat writes cell 2 from its last occurrence -/
 example : lastSel [2, 0, 2] 2 = some 2 ∧ selCoord [.list [2, 0, 2], .scalar 1] [2, 1] = some [2] ∧
     selCoord [.list [2, 0, 2], .scalar 1] [1, 1] = none := by decide
+
+/-! ## END TO END: `Lib.put` as the driver calls it
+
+`Lib.put a ui rhs rkind cfg cast` takes the array, a user index in any of its spellings (`UserIndex`: tuple /
+dict / `axis=`), the right-hand side (`RHS`: scalar or array), the dtype kind of the right-hand side, the
+indexing configuration (label / position mode, tolerance) and the `cast` flag.
+
+Vocabulary (defined in `Proofs/C03Put.lean`):
+* `resolveAll axes raw` - NumPy's resolution of the per-dimension indices that `_get_indices` returns; it is
+  literally the second stage of `Lib.take`.
+* `Spec.resolveL axes ixs` - definitional label-mode spec: per dimension `Spec.positionsL` (first position of a
+  label; positions of the listed labels in the requested order; `True`s of a mask of the axis' length; everything
+  for the full slice; C02's `Spec.sliceSel` for a label slice); `none` if some dimension does not resolve.
+* `Spec.Addressed ps j` - every coordinate of cell `j` is among the selected positions of its dimension.
+* `Spec.LabelAddressed axes ixs j` - the same said with LABELS: on every dimension the label at `j`'s coordinate
+  is the requested label / one of the listed labels / under a `True` of the mask / inside the label slice.
+* `Spec.Writer ps j c` - `c` is the selection coordinate that writes `j` LAST (repeated labels: last wins).
+* `Spec.putResult a ps vget rk cast` - `a` with `putVals a.vals ps vget` and the (cast) kind; axes, attrs kept.
+-/
+
+section EndToEnd
+variable {α : Type}
+open Spec C03P
+
+/-- a cell inside the shape of a well-formed array has one coordinate per axis -/
+theorem inRange_length_axes (a : DimArray α) (hwf : a.WF) (j : List Nat) (hj : InRange a.vals.shape j) :
+    j.length = a.axes.length := by
+  rw [inRange_length' _ _ hj, hwf.1, List.length_map]
+
+/-! ### 0. all modes, all index forms: the positions `put` writes are the positions `take` reads -/
+
+/-- Whatever the index form and mode: if `_get_indices` returns `raw` and NumPy resolves it to `ps`, then
+`take` reads `a.vals.outer ps` and `put` writes through the very same `ps` - or fails because the right-hand
+side does not broadcast to `outerShape ps`, the shape of what `take` returns. -/
+theorem put_writes_what_take_reads (a : DimArray α) (ui : UserIndex) (rhs : RHS α) (rk : Kind)
+    (cfg : IndexCfg) (cast : Bool) (raw : List RawIx) (ps : List PosIx)
+    (hraw : getIndices a.axes ui { cfg with keepdims := false } = .ok raw)
+    (hps : resolveAll a.axes raw = .ok ps) :
+    Lib.take a ui { cfg with keepdims := false } =
+        .ok { axes := getAxesOrtho a.axes raw ps, vals := a.vals.outer ps, vkind := a.vkind, attrs := a.attrs } ∧
+    put a ui rhs rk cfg cast =
+        (putRhs rhs (outerShape ps)).map (fun vget => putResult a ps vget rk cast) :=
+  ⟨take_of_resolve a ui _ raw ps hraw hps, put_of_resolve a ui rhs rk cfg cast raw ps hraw hps⟩
+
+/-- cell-level reading of `putResult`: an addressed cell receives the right-hand side's element at the selection
+coordinate of its LAST writer (which lies inside the selection's shape and is the coordinate at which `take`
+reads this very cell); every other cell keeps its value -/
+theorem putResult_cells (a : DimArray α) (ps : List PosIx) (vget : List Nat → α) (rk : Kind) (cast : Bool)
+    (j : List Nat) (hj : j.length = ps.length) :
+    (Addressed ps j → ∃ c, Writer ps j c ∧ InRange (outerShape ps) c ∧ expandIx ps c = j ∧
+        (putResult a ps vget rk cast).vals.get j = vget c) ∧
+    (¬ Addressed ps j → (putResult a ps vget rk cast).vals.get j = a.vals.get j) := by
+  constructor
+  · intro hadd
+    have hsome := (selCoord_isSome_iff ps j hj).mpr hadd
+    cases hc : selCoord ps j with
+    | none => rw [hc] at hsome; cases hsome
+    | some c =>
+      have hw := (selCoord_eq_some_iff ps j c hj).mp hc
+      exact ⟨c, hw, writer_inRange ps j c hw, writer_expand ps j c hw, by simp [putResult, putVals, hc]⟩
+  · intro hnot
+    have := (selCoord_none_iff ps j hj).mpr hnot
+    simp [putResult, putVals, this]
+
+theorem resolveAll_length (axes : List Axis) (raw : List RawIx) (ps : List PosIx) (hl : raw.length = axes.length)
+    (h : resolveAll axes raw = .ok ps) : ps.length = axes.length := by
+  have := mapM_ok_length _ _ _ h
+  simp only [List.length_zip] at this
+  omega
+
+/-! ### 1. label mode: `put_label_spec` -/
+
+/-- the hypotheses of a label-mode call: label mode without tolerance, an index (tuple, dict or `axis=` form)
+that normalises to one index `ixs[i]` per dimension, each of them a label (not `None`), a list of labels, a
+boolean mask or a label slice with non-zero step, on axes with unique labels (no MultiAxis) -/
+structure LabelCall (a : DimArray α) (ui : UserIndex) (cfg : IndexCfg) (ixs : List Ix) : Prop where
+  mode : cfg.mode = .label
+  tol : cfg.tol = none
+  norm : normalizeIndex (a.axes.map (·.name)) ui = .ok ixs
+  good : ∀ ix ∈ ixs, GoodIx ix
+  axes : ∀ ax ∈ a.axes, ax.labels.Nodup ∧ ax.members = []
+
+theorem LabelCall.length {a : DimArray α} {ui cfg ixs} (h : LabelCall a ui cfg ixs) : ixs.length = a.axes.length := by
+  have := normalizeIndex_length _ _ _ h.norm
+  simpa using this
+
+theorem expandedIndexer_plain (ixs : List Ix) (ndim : Nat) (hlen : ixs.length ≤ ndim)
+    (hg : ∀ ix ∈ ixs, ix ≠ .ellipsis) :
+    expandedIndexer ixs ndim = .ok (ixs ++ List.replicate (ndim - ixs.length) fullIx) := by
+  have hgo : ∀ (found : Bool) (l : List Ix), (∀ ix ∈ l, ix ≠ .ellipsis) →
+      expandedIndexer.go ixs ndim found l = l := by
+    intro found l
+    induction l with
+    | nil => intro _; rfl
+    | cons ix l ih =>
+      intro h
+      have := h ix (by simp)
+      have ih' := ih (fun i hi => h i (by simp [hi]))
+      cases ix <;> simp_all [expandedIndexer.go]
+  unfold expandedIndexer
+  simp only [hgo false ixs hg]
+  have : ¬ ixs.length > ndim := by omega
+  simp [this]
+
+/-- a tuple shorter than the number of dimensions is completed with full slices -/
+theorem normalizeIndex_tuple_short (dims : List String) (ixs : List Ix) (hlen : ixs.length ≤ dims.length)
+    (hg : ∀ ix ∈ ixs, ix ≠ .ellipsis) :
+    normalizeIndex dims (.tuple ixs) = .ok (ixs ++ List.replicate (dims.length - ixs.length) fullIx) := by
+  unfold normalizeIndex
+  simp only [bind, Except.bind, pure, Except.pure]
+  exact expandedIndexer_plain ixs dims.length hlen hg
+
+/-- `{d: ix}` / `axis=d`: the index on dimension `d`, the full slice everywhere else -/
+theorem normalizeIndex_dict1 (dims : List String) (d : String) (ix : Ix) (hd : d ∈ dims) (hix : ix ≠ .ellipsis) :
+    normalizeIndex dims (.dict [(.name d, ix)]) = .ok (dims.map fun d' => if d' = d then ix else fullIx) ∧
+    normalizeIndex dims (.axisArg ix (.name d)) = .ok (dims.map fun d' => if d' = d then ix else fullIx) := by
+  have hc : dims.contains d = true := by simpa using hd
+  have key : expandedIndexer (dims.map fun d' => if d' = d then ix else fullIx) dims.length =
+      .ok (dims.map fun d' => if d' = d then ix else fullIx) := by
+    have := expandedIndexer_plain (dims.map fun d' => if d' = d then ix else fullIx) dims.length (by simp)
+      (by
+        intro i hi
+        obtain ⟨d', _, rfl⟩ := List.mem_map.mp hi
+        split
+        · exact hix
+        · simp [fullIx])
+    simpa using this
+  have hmap : (dims.map fun d' => (Option.map (fun x : String × Ix => x.2)
+      (List.find? (fun x => x.1 == d') [(d, ix)].reverse)).getD fullIx) =
+      dims.map fun d' => if d' = d then ix else fullIx := by
+    apply List.map_congr_left
+    intro d' _
+    by_cases h : d' = d
+    · subst h; simp
+    · have : (d == d') = false := by simpa using (Ne.symm h)
+      simp [h, this]
+  constructor
+  · unfold normalizeIndex
+    simp only [bind, Except.bind, pure, Except.pure, List.mapM_cons, List.mapM_nil, dimOfKey, hc, if_true]
+    rw [hmap]; exact key
+  · unfold normalizeIndex
+    simp only [bind, Except.bind, pure, Except.pure, List.mapM_cons, List.mapM_nil, dimOfKey, hc, if_true]
+    rw [hmap]; exact key
+
+/-- a full-length tuple of such indices is its own normal form -/
+theorem normalizeIndex_tuple (dims : List String) (ixs : List Ix) (hlen : ixs.length = dims.length)
+    (hg : ∀ ix ∈ ixs, ix ≠ .ellipsis) : normalizeIndex dims (.tuple ixs) = .ok ixs := by
+  rw [normalizeIndex_tuple_short dims ixs (by omega) hg, hlen]
+  simp
+
+/-- when every dimension resolves, `_get_indices` and NumPy deliver exactly the spec positions -/
+theorem LabelCall.stages {a : DimArray α} {ui cfg ixs} (h : LabelCall a ui cfg ixs) (ps : List PosIx)
+    (hps : resolveL a.axes ixs = some ps) :
+    ∃ raw, getIndices a.axes ui { cfg with keepdims := false } = .ok raw ∧ resolveAll a.axes raw = .ok ps := by
+  rw [getIndices_of_norm a.axes ui _ ixs h.norm]
+  exact stages_ok { cfg with keepdims := false } h.mode h.tol rfl a.axes ixs ps h.length h.good h.axes hps
+
+/-- **`put` in label mode, as an equation.**  If every dimension of the index resolves (every requested label is
+on its axis, masks have the axis' length, slice bounds are acceptable) to the positions `ps`, the call returns
+`Spec.putResult a ps vget` for the broadcast right-hand side `vget`, or the broadcasting error. -/
+theorem put_label_eq (a : DimArray α) (ui : UserIndex) (rhs : RHS α) (rk : Kind) (cfg : IndexCfg) (cast : Bool)
+    (ixs : List Ix) (ps : List PosIx) (h : LabelCall a ui cfg ixs) (hps : resolveL a.axes ixs = some ps) :
+    put a ui rhs rk cfg cast = (putRhs rhs (outerShape ps)).map (fun vget => putResult a ps vget rk cast) := by
+  obtain ⟨raw, hraw, hres⟩ := h.stages ps hps
+  exact put_of_resolve a ui rhs rk cfg cast raw ps hraw hres
+
+/-- **`put_label_spec`.**  Label-mode assignment through an index that resolves: axes (names, labels, axis
+metadata), array metadata and shape are unchanged, the kind is the array's (`cast = false`) or `maybeCastKind`
+(`cast = true`), and for every cell `j` (one coordinate per axis):
+* if on EVERY dimension the label at `j`'s coordinate is among the requested labels of that dimension, the cell
+  holds the right-hand side's element at the selection coordinate `c` of its last writer (`Writer`: for a list
+  index `c_i` is the LAST place where `j`'s label occurs in the list - last write wins; scalar-indexed dimensions
+  do not appear in `c`), `c` is inside the selection's shape and is where `take` reads `j` (`expandIx ps c = j`);
+* otherwise the cell keeps its value (frame). -/
+theorem put_label_spec (a r : DimArray α) (ui : UserIndex) (rhs : RHS α) (rk : Kind) (cfg : IndexCfg)
+    (cast : Bool) (ixs : List Ix) (ps : List PosIx) (h : LabelCall a ui cfg ixs)
+    (hps : resolveL a.axes ixs = some ps) (hr : put a ui rhs rk cfg cast = .ok r) :
+    r.axes = a.axes ∧ r.attrs = a.attrs ∧ r.vals.shape = a.vals.shape ∧
+    r.vkind = (if cast then maybeCastKind a.vkind rk else a.vkind) ∧
+    ∃ vget, putRhs rhs (outerShape ps) = .ok vget ∧
+      ∀ j, j.length = a.axes.length →
+        (LabelAddressed a.axes ixs j → ∃ c, Writer ps j c ∧ InRange (outerShape ps) c ∧ expandIx ps c = j ∧
+            r.vals.get j = vget c) ∧
+        (¬ LabelAddressed a.axes ixs j → r.vals.get j = a.vals.get j) := by
+  rw [put_label_eq a ui rhs rk cfg cast ixs ps h hps] at hr
+  cases hv : putRhs rhs (outerShape ps) with
+  | error e => rw [hv] at hr; cases hr
+  | ok vget =>
+    rw [hv] at hr
+    simp only [Except.map, Except.ok.injEq] at hr
+    subst hr
+    refine ⟨rfl, rfl, rfl, rfl, vget, rfl, ?_⟩
+    intro j hj
+    obtain ⟨raw, hraw, hres⟩ := h.stages ps hps
+    have hpl : ps.length = a.axes.length :=
+      resolveAll_length a.axes raw ps (getIndices_length _ _ _ _ hraw) hres
+    have hiff := addressed_iff_label a.axes ixs ps j (fun ax hax => (h.axes ax hax).1) hps hj h.length
+    rw [← hiff]
+    exact putResult_cells a ps vget rk cast j (by omega)
+
+/-- scalar right-hand side: the addressed cells hold the scalar, the others their old value -/
+theorem put_label_scalar (a r : DimArray α) (ui : UserIndex) (v : α) (rk : Kind) (cfg : IndexCfg)
+    (cast : Bool) (ixs : List Ix) (ps : List PosIx) (h : LabelCall a ui cfg ixs)
+    (hps : resolveL a.axes ixs = some ps) (hr : put a ui (.scalar v) rk cfg cast = .ok r)
+    (j : List Nat) (hj : j.length = a.axes.length) :
+    (LabelAddressed a.axes ixs j → r.vals.get j = v) ∧
+    (¬ LabelAddressed a.axes ixs j → r.vals.get j = a.vals.get j) := by
+  obtain ⟨_, _, _, _, vget, hv, hcells⟩ := put_label_spec a r ui (.scalar v) rk cfg cast ixs ps h hps hr
+  simp only [putRhs, Except.ok.injEq] at hv
+  subst hv
+  refine ⟨fun hadd => ?_, (hcells j hj).2⟩
+  obtain ⟨c, _, _, _, hc⟩ := (hcells j hj).1 hadd
+  exact hc
+
+/-- array right-hand side of exactly the selection's shape: the addressed cell holds the element of the
+right-hand side at its (last) writer coordinate -/
+theorem put_label_array (a r : DimArray α) (ui : UserIndex) (v : NDArr α) (rk : Kind) (cfg : IndexCfg)
+    (cast : Bool) (ixs : List Ix) (ps : List PosIx) (h : LabelCall a ui cfg ixs)
+    (hps : resolveL a.axes ixs = some ps) (hshape : v.shape = outerShape ps)
+    (hr : put a ui (.arr v) rk cfg cast = .ok r) (j : List Nat) (hj : j.length = a.axes.length) :
+    (LabelAddressed a.axes ixs j → ∃ c, Writer ps j c ∧ InRange v.shape c ∧ r.vals.get j = v.get c) ∧
+    (¬ LabelAddressed a.axes ixs j → r.vals.get j = a.vals.get j) := by
+  obtain ⟨_, _, _, _, vget, hv, hcells⟩ := put_label_spec a r ui (.arr v) rk cfg cast ixs ps h hps hr
+  obtain ⟨g, hg, hgv⟩ := broadcastTo_exact v (outerShape ps) hshape
+  simp only [putRhs, hg, Except.ok.injEq] at hv
+  subst hv
+  refine ⟨fun hadd => ?_, (hcells j hj).2⟩
+  obtain ⟨c, hw, hin, _, hc⟩ := (hcells j hj).1 hadd
+  exact ⟨c, hw, by rw [hshape]; exact hin, by rw [hc, hgv c hin]⟩
+
+/-! ### 2. errors: `put_ok_iff`, `put_unresolved_error` (the model is functional: an error writes nothing) -/
+
+/-- every mask of the index has the length of its axis -/
+def MasksFit (axes : List Axis) (ixs : List Ix) : Prop := ∀ x ∈ ixs.zip axes, MaskFit x.1 x.2
+
+/-- an index that does not normalise (too many indices, unknown dimension name, axis position out of range)
+is refused with the error of the normalisation -/
+theorem put_normalize_error (a : DimArray α) (ui : UserIndex) (rhs : RHS α) (rk : Kind) (cfg : IndexCfg)
+    (cast : Bool) (e : Err) (h : normalizeIndex (a.axes.map (·.name)) ui = .error e) :
+    put a ui rhs rk cfg cast = .error e := by
+  apply put_error_of_getIndices
+  rw [getIndices_eq, h]; rfl
+
+/-- **an index that does not resolve is refused**: if some dimension does not resolve (a requested label is not
+on its axis, a slice bound is unacceptable) the call is an error - `IndexError` when the index consists of
+labels, lists, masks and full slices only -/
+theorem put_unresolved_error (a : DimArray α) (ui : UserIndex) (rhs : RHS α) (rk : Kind) (cfg : IndexCfg)
+    (cast : Bool) (ixs : List Ix) (h : LabelCall a ui cfg ixs) (hfit : MasksFit a.axes ixs)
+    (hps : resolveL a.axes ixs = none) :
+    ∃ e, put a ui rhs rk cfg cast = .error e ∧ ((∀ ix ∈ ixs, SimpleIx ix) → e = .index) := by
+  obtain ⟨e, he, hcls⟩ := stages_err { cfg with keepdims := false } h.mode h.tol rfl a.axes ixs h.length h.good
+    h.axes hfit hps
+  refine ⟨e, ?_, hcls⟩
+  apply put_error_of_getIndices
+  rw [getIndices_of_norm a.axes ui _ ixs h.norm, he]
+
+/-- a right-hand side that does not broadcast to the selection's shape is a `ValueError` -/
+theorem put_misfit_error (a : DimArray α) (ui : UserIndex) (v : NDArr α) (rk : Kind) (cfg : IndexCfg)
+    (cast : Bool) (ixs : List Ix) (ps : List PosIx) (h : LabelCall a ui cfg ixs)
+    (hps : resolveL a.axes ixs = some ps) (hv : broadcastTo v (outerShape ps) = none) :
+    put a ui (.arr v) rk cfg cast = .error .value := by
+  rw [put_label_eq a ui (.arr v) rk cfg cast ixs ps h hps]
+  simp [putRhs, hv, Except.map]
+
+/-- **`put_ok_iff`**: (masks of the right length) the assignment succeeds exactly when every dimension
+resolves and the right-hand side broadcasts to the selection's shape -/
+theorem put_ok_iff (a : DimArray α) (ui : UserIndex) (rhs : RHS α) (rk : Kind) (cfg : IndexCfg)
+    (cast : Bool) (ixs : List Ix) (h : LabelCall a ui cfg ixs) (hfit : MasksFit a.axes ixs) :
+    (∃ r, put a ui rhs rk cfg cast = .ok r) ↔
+      ∃ ps, resolveL a.axes ixs = some ps ∧ ∃ vget, putRhs rhs (outerShape ps) = .ok vget := by
+  constructor
+  · rintro ⟨r, hr⟩
+    cases hps : resolveL a.axes ixs with
+    | none =>
+      obtain ⟨e, he, _⟩ := put_unresolved_error a ui rhs rk cfg cast ixs h hfit hps
+      rw [he] at hr; cases hr
+    | some ps =>
+      refine ⟨ps, rfl, ?_⟩
+      rw [put_label_eq a ui rhs rk cfg cast ixs ps h hps] at hr
+      cases hv : putRhs rhs (outerShape ps) with
+      | error e => rw [hv] at hr; cases hr
+      | ok vget => exact ⟨vget, rfl⟩
+  · rintro ⟨ps, hps, vget, hv⟩
+    rw [put_label_eq a ui rhs rk cfg cast ixs ps h hps, hv]
+    exact ⟨_, rfl⟩
+
+/-- what "resolves" means on one dimension, said with labels -/
+def IxResolves (L : List Label) (kind : Kind) : Ix → Prop
+  | .scalar v => v ∈ L
+  | .list vs => ∀ v ∈ vs, v ∈ L
+  | .mask m => m.length = L.length
+  | .slice s e st => (Ix.slice s e st).isFull = true ∨ (sliceSel L kind s e st).isSome = true
+  | .ellipsis => False
+
+theorem positionsL_isSome_iff (L : List Label) (kind : Kind) (ix : Ix) :
+    (positionsL L kind ix).isSome = true ↔ IxResolves L kind ix := by
+  cases ix with
+  | ellipsis => simp [positionsL, positions, IxResolves]
+  | scalar v => simp only [positionsL, positions, IxResolves]; split <;> simp_all
+  | list vs => simp only [positionsL, positions, IxResolves]; split <;> simp_all
+  | mask m => simp only [positionsL, positions, IxResolves]; split <;> simp_all
+  | slice s e st =>
+    simp only [positionsL, IxResolves]
+    split
+    · simp_all
+    · rename_i hf
+      cases sliceSel L kind s e st <;> simp [hf]
+
+/-- all dimensions resolve iff each one does: every requested label is on its axis, masks fit, slices resolve -/
+theorem resolveL_isSome_iff : ∀ (axes : List Axis) (ixs : List Ix), ixs.length = axes.length →
+    ((∃ ps, resolveL axes ixs = some ps) ↔ ∀ x ∈ ixs.zip axes, IxResolves x.2.labels x.2.kind x.1)
+  | [], [], _ => by simp [resolveL]
+  | [], _ :: _, hl => by simp at hl
+  | _ :: _, [], hl => by simp at hl
+  | ax :: axes, ix :: ixs, hl => by
+    have ih := resolveL_isSome_iff axes ixs (by simpa using hl)
+    have h1 := positionsL_isSome_iff ax.labels ax.kind ix
+    simp only [resolveL_cons, List.zip_cons_cons, List.mem_cons, forall_eq_or_imp, ← ih, ← h1]
+    cases positionsL ax.labels ax.kind ix with
+    | none => simp
+    | some p =>
+      cases resolveL axes ixs with
+      | none => simp
+      | some ps => simp
+
+/-- a label slice resolves iff its bounds are numbers (monotonic numeric axis: bounding box, the bounds need not
+be labels) resp. labels of the axis (any other axis); open bounds always do -/
+theorem sliceSel_isSome_iff (L : List Label) (kind : Kind) (s e : Option Label) (st : Option Int)
+    (hst : st ≠ some 0) :
+    (sliceSel L kind s e st).isSome = true ↔
+      if isBBoxAxis L kind then (∀ v, s = some v → v.isNum = true) ∧ (∀ v, e = some v → v.isNum = true)
+      else (∀ v, s = some v → v ∈ L) ∧ (∀ v, e = some v → v ∈ L) := by
+  have h0 := step_getD_ne st hst
+  unfold sliceSel
+  simp only [h0, Bool.false_eq_true, if_false]
+  by_cases hb : isBBoxAxis L kind = true
+  · simp only [hb, if_true]
+    cases s with
+    | none =>
+      cases e with
+      | none => simp
+      | some w => cases hw : w.isNum <;> simp [hw]
+    | some v =>
+      cases e with
+      | none => cases hv : v.isNum <;> simp [hv]
+      | some w => cases hv : v.isNum <;> cases hw : w.isNum <;> simp [hv, hw]
+  · simp only [hb, Bool.false_eq_true, if_false]
+    cases s with
+    | none =>
+      cases e with
+      | none => simp
+      | some w => by_cases hw : w ∈ L <;> simp [hw]
+    | some v =>
+      cases e with
+      | none => by_cases hv : v ∈ L <;> simp [hv]
+      | some w => by_cases hv : v ∈ L <;> by_cases hw : w ∈ L <;> simp [hv, hw]
+
+/-! ### 3. read your writes: `take_put` -/
+
+/-- all modes, all index forms: reading back through the same index (whose resolved positions `ps` carry no
+repeat) returns an array with the axes and metadata `take` gives on the original array, holding the broadcast
+right-hand side -/
+theorem take_put_generic (a r : DimArray α) (ui : UserIndex) (rhs : RHS α) (rk : Kind) (cfg : IndexCfg)
+    (cast : Bool) (raw : List RawIx) (ps : List PosIx) (hk : cfg.keepdims = false)
+    (hraw : getIndices a.axes ui cfg = .ok raw) (hps : resolveAll a.axes raw = .ok ps) (hnr : NoRepeat ps)
+    (hr : put a ui rhs rk cfg cast = .ok r) :
+    ∃ t t0 vget, Lib.take r ui cfg = .ok t ∧ Lib.take a ui cfg = .ok t0 ∧
+      putRhs rhs (outerShape ps) = .ok vget ∧
+      t.axes = t0.axes ∧ t.attrs = t0.attrs ∧ t.vals.shape = t0.vals.shape ∧ t.vals.shape = outerShape ps ∧
+      ∀ c, InRange (outerShape ps) c → t.vals.get c = vget c := by
+  have hraw' : getIndices a.axes ui { cfg with keepdims := false } = .ok raw := by
+    rw [cfg_keepdims_false cfg hk]; exact hraw
+  rw [put_of_resolve a ui rhs rk cfg cast raw ps hraw' hps] at hr
+  cases hv : putRhs rhs (outerShape ps) with
+  | error e => rw [hv] at hr; cases hr
+  | ok vget =>
+    rw [hv] at hr
+    simp only [Except.map, Except.ok.injEq] at hr
+    subst hr
+    refine ⟨_, _, vget, take_of_resolve (putResult a ps vget rk cast) ui cfg raw ps hraw hps,
+      take_of_resolve a ui cfg raw ps hraw hps, rfl, rfl, rfl, rfl, rfl, ?_⟩
+    intro c hc
+    have hw := writer_of_noRepeat ps c hnr hc
+    have hsel := (selCoord_eq_some_iff ps (expandIx ps c) c (expandIx_length ps c)).mpr hw
+    simp [putResult, NDArr.outer, putVals, hsel]
+
+/-- **`take_put`** (label mode): after a successful assignment through an index without repeated labels, reading
+the same index back succeeds, has the axes / metadata / shape that reading the original array gives, and holds
+the broadcast right-hand side at every coordinate of the selection -/
+theorem take_put (a r : DimArray α) (ui : UserIndex) (rhs : RHS α) (rk : Kind) (cfg : IndexCfg)
+    (cast : Bool) (ixs : List Ix) (ps : List PosIx) (h : LabelCall a ui cfg ixs) (hk : cfg.keepdims = false)
+    (hps : resolveL a.axes ixs = some ps) (hnodup : ∀ ix ∈ ixs, ∀ vs, ix = .list vs → vs.Nodup)
+    (hr : put a ui rhs rk cfg cast = .ok r) :
+    ∃ t t0 vget, Lib.take r ui cfg = .ok t ∧ Lib.take a ui cfg = .ok t0 ∧
+      putRhs rhs (outerShape ps) = .ok vget ∧
+      t.axes = t0.axes ∧ t.attrs = t0.attrs ∧ t.vals.shape = t0.vals.shape ∧ t.vals.shape = outerShape ps ∧
+      ∀ c, InRange (outerShape ps) c → t.vals.get c = vget c := by
+  obtain ⟨raw, hraw, hres⟩ := h.stages ps hps
+  rw [cfg_keepdims_false cfg hk] at hraw
+  exact take_put_generic a r ui rhs rk cfg cast raw ps hk hraw hres
+    (resolveL_noRepeat a.axes ixs ps (fun ax hax => (h.axes ax hax).1) hnodup h.length hps) hr
+
+/-- reading back a scalar assignment returns the scalar everywhere -/
+theorem take_put_scalar (a r : DimArray α) (ui : UserIndex) (v : α) (rk : Kind) (cfg : IndexCfg)
+    (cast : Bool) (ixs : List Ix) (ps : List PosIx) (h : LabelCall a ui cfg ixs) (hk : cfg.keepdims = false)
+    (hps : resolveL a.axes ixs = some ps) (hnodup : ∀ ix ∈ ixs, ∀ vs, ix = .list vs → vs.Nodup)
+    (hr : put a ui (.scalar v) rk cfg cast = .ok r) :
+    ∃ t, Lib.take r ui cfg = .ok t ∧ t.vals.shape = outerShape ps ∧ ∀ c, InRange t.vals.shape c → t.vals.get c = v := by
+  obtain ⟨t, _, vget, ht, _, hv, _, _, _, hsh, hc⟩ :=
+    take_put a r ui (.scalar v) rk cfg cast ixs ps h hk hps hnodup hr
+  simp only [putRhs, Except.ok.injEq] at hv
+  subst hv
+  exact ⟨t, ht, hsh, fun c hc' => hc c (by rw [← hsh]; exact hc')⟩
+
+/-- reading back an array assignment (right-hand side of the selection's shape) returns the right-hand side -/
+theorem take_put_array (a r : DimArray α) (ui : UserIndex) (v : NDArr α) (rk : Kind) (cfg : IndexCfg)
+    (cast : Bool) (ixs : List Ix) (ps : List PosIx) (h : LabelCall a ui cfg ixs) (hk : cfg.keepdims = false)
+    (hps : resolveL a.axes ixs = some ps) (hnodup : ∀ ix ∈ ixs, ∀ vs, ix = .list vs → vs.Nodup)
+    (hshape : v.shape = outerShape ps) (hr : put a ui (.arr v) rk cfg cast = .ok r) :
+    ∃ t, Lib.take r ui cfg = .ok t ∧ t.vals.shape = v.shape ∧ ∀ c, InRange v.shape c → t.vals.get c = v.get c := by
+  obtain ⟨t, _, vget, ht, _, hv, _, _, _, hsh, hc⟩ :=
+    take_put a r ui (.arr v) rk cfg cast ixs ps h hk hps hnodup hr
+  obtain ⟨g, hg, hgv⟩ := broadcastTo_exact v (outerShape ps) hshape
+  simp only [putRhs, hg, Except.ok.injEq] at hv
+  subst hv
+  refine ⟨t, ht, by rw [hsh, hshape], fun c hc' => ?_⟩
+  have hin : InRange (outerShape ps) c := by rw [← hshape]; exact hc'
+  rw [hc c hin, hgv c hin]
+
+end EndToEnd
+
+section EndToEndMore
+open Spec C03P
+
+/-! ### 2b. errors in all modes and index forms -/
+
+
+/-- the per-dimension index selects nothing (as NumPy sees it before any bounds check) -/
+def rawSelectsNothing (r : RawIx) (n : Nat) : Bool :=
+  match r with
+  | .ints l => l.isEmpty
+  | .mask m => !m.any id
+  | .slice s e st => (match slicePositions s e st n with | .ok ps => ps.isEmpty | .error _ => false)
+  | .int _ => false
+
+/-- when no dimension selects nothing, `put` resolves its indices exactly like `take` -/
+theorem putIndices_checked (axes : List Axis) (raw : List RawIx)
+    (h : ∀ x ∈ raw.zip axes, rawSelectsNothing x.1 x.2.size = false) :
+    putIndices axes raw = resolveAll axes raw := by
+  unfold putIndices resolveAll
+  simp only []
+  generalize hb : List.any (raw.zip axes) _ = b
+  have hbf : b = false := by
+    rw [← hb, List.any_eq_false]
+    rintro ⟨r, ax⟩ hx
+    have := h (r, ax) hx
+    cases r with
+    | slice s e st =>
+      simp only [rawSelectsNothing] at this
+      cases hsp : slicePositions s e st ax.size with
+      | error err => simp [hsp]
+      | ok ps => rw [hsp] at this; simpa [hsp] using this
+    | ints l => simpa [rawSelectsNothing] using this
+    | mask m => simpa [rawSelectsNothing] using this
+    | int i => simp
+  rw [hbf]
+  congr 1
+  funext ⟨r, ax⟩
+  cases r <;> simp
+
+/-- all modes, all index forms - **errors**: an index `_get_indices` refuses is refused with the same error; an
+index NumPy refuses when reading (position out of range, mask of another length, zero step) is refused with the
+same error when writing, provided no dimension selects nothing; a right-hand side that does not broadcast is
+refused.  In each case the result is the error (nothing is written: the model is functional). -/
+theorem put_error_generic {α : Type} (a : DimArray α) (ui : UserIndex) (rhs : RHS α) (rk : Kind) (cfg : IndexCfg)
+    (cast : Bool) (e : Err) :
+    (getIndices a.axes ui { cfg with keepdims := false } = .error e → put a ui rhs rk cfg cast = .error e) ∧
+    (∀ raw, getIndices a.axes ui { cfg with keepdims := false } = .ok raw →
+      (∀ x ∈ raw.zip a.axes, rawSelectsNothing x.1 x.2.size = false) →
+      resolveAll a.axes raw = .error e → put a ui rhs rk cfg cast = .error e) ∧
+    (∀ raw ps, getIndices a.axes ui { cfg with keepdims := false } = .ok raw → resolveAll a.axes raw = .ok ps →
+      putRhs rhs (outerShape ps) = .error e → put a ui rhs rk cfg cast = .error e) := by
+  refine ⟨put_error_of_getIndices a ui rhs rk cfg cast e, ?_, ?_⟩
+  · intro raw hraw hne hres
+    unfold put
+    simp only [hraw, bind, Except.bind, putIndices_checked a.axes raw hne, hres]
+  · intro raw ps hraw hps hv
+    rw [put_of_resolve a ui rhs rk cfg cast raw ps hraw hps, hv]
+    rfl
+
+
+/-- non-vacuity in POSITION mode: `a.ix[5, :] = 7` on the 2 x 3 example - `_get_indices` passes the integer on,
+no dimension is empty, NumPy refuses position 5 on an axis of length 2, and so does the assignment -/
+example : put exArr (.tuple [.scalar (.num 5), fullIx]) (.scalar 7) .i { indexing := some .position } false
+    = .error .index := by
+  refine (put_error_generic exArr _ _ _ _ _ _).2.1 [.int 5, .slice none none none] rfl ?_ rfl
+  intro x hx
+  simp [exArr] at hx
+  rcases hx with rfl | rfl <;> rfl
+
+
+
+/-! ### 4. kind / `cast`, end to end -/
+
+/-- **the `cast` flag as mirrored** (any index form, any mode): it changes nothing but the kind of the result -
+the same calls succeed, with the same error otherwise, the same cells are written with the same values
+(the mirror's cells are symbolic: NumPy's coercion of an assigned value to the array's dtype - e.g. truncation
+of a float written into an int array without `cast` - is applied by the harness from the result's kind);
+with `cast` the kind is `maybeCastKind`, without it the array's own -/
+theorem put_cast_only_kind {α : Type} (a : DimArray α) (ui : UserIndex) (rhs : RHS α) (rk : Kind) (cfg : IndexCfg) :
+    put a ui rhs rk cfg true =
+      (put a ui rhs rk cfg false).map (fun r => { r with vkind := maybeCastKind a.vkind rk }) ∧
+    (∀ r, put a ui rhs rk cfg false = .ok r → r.vkind = a.vkind) := by
+  constructor
+  · unfold put
+    simp only [bind, Except.bind, pure, Except.pure, Except.map]
+    cases getIndices a.axes ui { cfg with keepdims := false } with
+    | error e => rfl
+    | ok raw =>
+      simp only
+      cases putIndices a.axes raw with
+      | error e => rfl
+      | ok pix =>
+        simp only
+        cases putRhs rhs (outerShape pix) <;> rfl
+  · intro r hr
+    have := put_kind a r ui rhs rk cfg false hr
+    simpa using this
+
+/-- `_maybe_cast_type` on ALL pairs of kinds: the array keeps its kind exactly when it can hold the assigned kind
+(same kind, object, float <- int, unicode <- bytes); int <- float becomes float (no truncation), bytes <- unicode
+becomes unicode, everything else object -/
+theorem maybeCastKind_spec (a v : Kind) :
+    (maybeCastKind a v = a ↔ (a = v ∨ a = .O ∨ (a = .f ∧ v = .i) ∨ (a = .U ∧ v = .S))) ∧
+    (a = .i → v = .f → maybeCastKind a v = .f) ∧ (a = .S → v = .U → maybeCastKind a v = .U) ∧
+    (maybeCastKind a v = a ∨ maybeCastKind a v = .f ∨ maybeCastKind a v = .U ∨ maybeCastKind a v = .O) := by
+  cases a <;> cases v <;> decide
+
+
+
+/-! ### non-vacuity: `exArr` (C01: axes x = [b, a], y = [3, 1, 2], cells 0..5), index `a["a", [2, 3, 2]]` -/
+
+theorem c03exCall : LabelCall exArr (.tuple exIx) {} exIx where
+  mode := rfl
+  tol := rfl
+  norm := rfl
+  good := by intro ix hix; simp [exIx] at hix; rcases hix with rfl | rfl <;> simp [GoodIx]
+  axes := by intro ax hax; simp [exArr] at hax; rcases hax with rfl | rfl <;> simp
+
+/-- every requested label is present: the index resolves, label 2 (listed twice) to position 2 -/
+theorem c03exRes : resolveL exArr.axes exIx = some [.scalar 1, .list [2, 0, 2]] := by decide
+
+def c03exRhs : NDArr Nat := { shape := [3], get := fun c => 100 + c.getD 0 0 }
+
+/-- the hypotheses of `put_label_spec` / `put_label_array` hold, and the call writes `rhs[1]` at label 3,
+`rhs[2]` (the LAST of the two writers of label 2, not `rhs[0]`) at label 2, nothing else -/
+example : (put exArr (.tuple exIx) (.arr c03exRhs) .i {} false).toOption.map (·.vals.toList)
+    = some [0, 1, 2, 101, 4, 102] := by
+  rw [put_label_eq exArr _ _ _ _ _ exIx _ c03exCall c03exRes]
+  decide
+
+/-- label-level addressing on the example: cell (a, 2) = [1, 2] is addressed, cell (b, 2) = [0, 2] and cell
+(a, 1) = [1, 1] are not; the writer of [1, 2] is selection coordinate [2] -/
+example : LabelAddressed exArr.axes exIx [1, 2] ∧ ¬ LabelAddressed exArr.axes exIx [0, 2] ∧
+    ¬ LabelAddressed exArr.axes exIx [1, 1] ∧ Writer [.scalar 1, .list [2, 0, 2]] [1, 2] [2] := by
+  refine ⟨?_, ?_, ?_, ?_⟩
+  · simp [LabelAddressed, LabelSel, exArr, exIx]
+  · simp [LabelAddressed, LabelSel, exArr, exIx]
+  · simp [LabelAddressed, LabelSel, exArr, exIx]
+  · simp only [Writer]
+    refine ⟨by trivial, ⟨by trivial, ?_⟩, by trivial⟩
+    intro c' hc'
+    have : [2, 0, 2][c']? = none := by
+      apply List.getElem?_eq_none
+      simp; omega
+    simp [this]
+
+/-- `put_ok_iff` on the example: a right-hand side of shape [3] (or [1], or a scalar) fits, shape [2] does not -/
+example : (∃ r, put exArr (.tuple exIx) (.arr c03exRhs) .i {} false = .ok r) ∧
+    put exArr (.tuple exIx) (.arr { shape := [2], get := fun _ => 0 }) .i {} false = .error .value := by
+  constructor
+  · rw [put_ok_iff exArr _ _ _ _ _ exIx c03exCall (by intro x hx m hm; simp [exIx, exArr] at hx; rcases hx with rfl | rfl <;> cases hm)]
+    exact ⟨_, c03exRes, by simp [putRhs, c03exRhs, broadcastTo, outerShape]⟩
+  · exact put_misfit_error exArr _ _ _ _ _ exIx _ c03exCall c03exRes (by simp [broadcastTo, outerShape])
+
+/-- an absent label ("c" is not on axis x): the index does not resolve and the call is an `IndexError` -/
+def c03exIxAbsent : List Ix := [.scalar (.str "c"), .list [.num 2]]
+
+example : resolveL exArr.axes c03exIxAbsent = none ∧
+    ∃ e, put exArr (.tuple c03exIxAbsent) (.scalar 7) .i {} false = .error e ∧ e = .index := by
+  have hcall : LabelCall exArr (.tuple c03exIxAbsent) {} c03exIxAbsent :=
+    { mode := rfl, tol := rfl, norm := rfl
+      good := by intro ix hix; simp [c03exIxAbsent] at hix; rcases hix with rfl | rfl <;> simp [GoodIx]
+      axes := c03exCall.axes }
+  have hres : resolveL exArr.axes c03exIxAbsent = none := by decide
+  obtain ⟨e, he, hc⟩ := put_unresolved_error exArr (.tuple c03exIxAbsent) (.scalar 7) .i {} false c03exIxAbsent hcall
+    (by intro x hx m hm; simp [c03exIxAbsent, exArr] at hx; rcases hx with rfl | rfl <;> cases hm) hres
+  refine ⟨hres, e, he, hc ?_⟩
+  intro ix hix; simp [c03exIxAbsent] at hix; rcases hix with rfl | rfl <;> simp [SimpleIx]
+
+/-- `take_put` on an index without repeats, dict form `{"y": [2, 3]}` (a label slice would do as well): the
+hypotheses hold and the read-back is the right-hand side -/
+def c03exIxY : List Ix := [fullIx, .list [.num 2, .num 3]]
+
+theorem c03exCallY : LabelCall exArr (.dict [(.name "y", .list [.num 2, .num 3])]) {} c03exIxY where
+  mode := rfl
+  tol := rfl
+  norm := (normalizeIndex_dict1 ["x", "y"] "y" _ (by simp) (by simp)).1
+  good := by intro ix hix; simp [c03exIxY, fullIx] at hix; rcases hix with rfl | rfl <;> simp [GoodIx]
+  axes := c03exCall.axes
+
+theorem c03exResY : resolveL exArr.axes c03exIxY = some [.list [0, 1], .list [2, 0]] := by decide
+
+theorem c03exNodupY : ∀ ix ∈ c03exIxY, ∀ vs, ix = .list vs → vs.Nodup := by
+  intro ix hix vs hvs
+  simp [c03exIxY, fullIx] at hix
+  rcases hix with rfl | rfl
+  · cases hvs
+  · cases hvs; decide
+
+/-- any right-hand side of shape [2, 2] can be assigned through `{"y": [2, 3]}` and is read back unchanged -/
+example (v : NDArr Nat) (hv : v.shape = [2, 2]) :
+    ∃ r, put exArr (.dict [(.name "y", .list [.num 2, .num 3])]) (.arr v) .i {} false = .ok r ∧
+      ∃ t, Lib.take r (.dict [(.name "y", .list [.num 2, .num 3])]) {} = .ok t ∧ t.vals.shape = v.shape ∧
+        ∀ c, InRange v.shape c → t.vals.get c = v.get c := by
+  have hsh : v.shape = outerShape [.list [0, 1], .list [2, 0]] := by simp [hv, outerShape]
+  obtain ⟨g, hg, _⟩ := broadcastTo_exact v _ hsh
+  obtain ⟨r, hr⟩ := (put_ok_iff exArr _ (.arr v) .i {} false c03exIxY c03exCallY
+    (by intro x hx m hm; simp [c03exIxY, exArr, fullIx] at hx; rcases hx with rfl | rfl <;> cases hm)).mpr
+    ⟨_, c03exResY, g, by simp [putRhs, hg]⟩
+  exact ⟨r, hr, take_put_array exArr r _ v .i {} false c03exIxY _ c03exCallY rfl c03exResY c03exNodupY hsh hr⟩
+
+/-- a label slice on the numeric axis y = [3, 1, 2] (not monotonic: bounds must be labels, first to second
+inclusive): `a[:, 3:1]` resolves to positions 0, 1 -/
+example : GoodIx (.slice (some (.num 3)) (some (.num 1)) none) ∧
+    resolveL exArr.axes [fullIx, .slice (some (.num 3)) (some (.num 1)) none] = some [.list [0, 1], .list [0, 1]] := by
+  refine ⟨by simp [GoodIx], ?_⟩
+  have hs : sliceSel [Label.num 3, Label.num 1, Label.num 2] Kind.i (some (Label.num 3)) (some (Label.num 1)) none
+      = some [0, 1] := by
+    have hmono : isBBoxAxis [Label.num 3, Label.num 1, Label.num 2] Kind.i = false := by decide
+    have hpr : posRange 3 (some 0) (some 1) = [0, 1] := by decide
+    have h3 : firstIdx [Label.num 3, Label.num 1, Label.num 2] (Label.num 3) = 0 := by decide
+    have h1 : firstIdx [Label.num 3, Label.num 1, Label.num 2] (Label.num 1) = 1 := by decide
+    have hm3 : Label.num 3 ∈ [Label.num 3, Label.num 1, Label.num 2] := by decide
+    have hm1 : Label.num 1 ∈ [Label.num 3, Label.num 1, Label.num 2] := by decide
+    simp [sliceSel, hmono, hm3, hm1, h3, h1, hpr, everyKth_cons, everyKth_nil]
+  simp [resolveL, positionsL, exArr, fullIx, Ix.isFull, hs]
+  decide
+
+/-! ### the mask-length hypothesis of `put_ok_iff` cannot be dropped -/
+
+/-- COUNTEREXAMPLE (NumPy's quirk as mirrored by `putIndices`): when some dimension selects nothing, the other
+index arrays are not looked at.  `a[[False, False], [True]] = 7` on the 2 x 3 example has a mask of length 1 on
+an axis of length 3: the index does not resolve and READING it is an `IndexError`, but the assignment succeeds
+(writing nothing). -/
+theorem put_mask_length_unchecked_counterexample :
+    let ixs : List Ix := [.mask [false, false], .mask [true]]
+    resolveL exArr.axes ixs = none ∧ ¬ MasksFit exArr.axes ixs ∧
+    (match Lib.take exArr (.tuple ixs) {} with | .error e => some e | .ok _ => none) = some Err.index ∧
+    (put exArr (.tuple ixs) (.scalar 7) .i {} false).toOption.map (·.vals.toList) = some [0, 1, 2, 3, 4, 5] := by
+  refine ⟨by decide, ?_, by decide, by decide⟩
+  intro h
+  have := h (.mask [true], exArr.axes[1]) (by simp [exArr]) [true] rfl
+  simp [exArr] at this
+
+
+end EndToEndMore
 
 end DimModel
